@@ -22,13 +22,13 @@ func init() {
 
 var e1Rules = map[string]string{
 	"C01": "programs: seeded random acyclic task graphs (profile deps: fan-in/fan-out deps, for-loops on deps, nested calls, run once/when_changed deps shared by several dependents, failing commands); schedules: all maximal release orders (dfs) of programs with <= 9 probe events, plus random/pct/lifo/fifo and one starve schedule per deduplicated task, half of them with verifhook pause points as extra choice points; oracle: every newly pending command event must be enabled in the reference model (deps complete and successful). A case is one (program, schedule); non-trivial = at some quiescent state >= 2 commands were pending at once (the schedule choice mattered); distinct by (program text hash, release-order hash).",
-	"C02": "programs: profile seq (nesting, for-loops over lists and matrices incl. ref rows, deferred calls, variables passed in calls); oracle: a pending B of entry k+1 while entry k (recursively: callee, its deps and defers) is incomplete, out-of-order loop items or a printed X different from the passed value is a violation. Case/non-trivial/distinct as for C01.",
-	"C03": "programs: profile fail (1-3 failing probes with codes from {1,2,3,7,42,126,255}, cmd/task ignore_error placements, shared once tasks); oracle: no event downstream of a released non-ignored failure may become pending (same task, callers, dependents, referrers of a shared instance), Run must return an error; with ignore_error the next command must be enabled. Exit statuses are decided by the CLI part (see coverage.cli). Case/non-trivial/distinct as for C01.",
-	"C06": "plus a free-running stress part: 200 deduplicated tasks x 3 simultaneous references per round on 16/8/4 procs, executions counted by name; programs: profile dedup (once and when_changed tasks referenced 2-5 times from deps, cmds, loops, through an include under two namespaces; variable values reaching only env or sub-call vars); oracle: identity-carrying probes: a duplicate B of one identity, a missing execution in a failure-free run, a referrer proceeding before the single execution's last event or after its failure is a violation. Case/non-trivial/distinct as for C01.",
-	"C07": "programs: two thirds profile conc (failure free; depth, fan-out <= 5, shared deps, loops), N in {1,2,3,5,unlimited}, one third profile conc-fail (failing commands and calls, ignore_error, defers, N in {1,2,3}: slots must come back on error paths; WORK is not evaluated once a failure fired); oracle at every quiescent state: pending command writes <= N (SLOT), nothing pending and Run not returned = deadlock (DEAD), pending = min(N, enabled) (WORK), at the end every expected event happened (END.missing). Cycles are decided by the CLI part (coverage.cli). Case/non-trivial/distinct as for C01.",
-	"C13": "programs: profile guard (platforms, requires, enum, preconditions, prompt without terminal, with/without --yes, guards on neighbours, shared tasks); oracle: a pending event of a guarded-out task is a violation, dependents/callers of a failed guard must not run, Run must return an error (platform: success and silence). Exit statuses are decided by the CLI part (coverage.cli). Case/non-trivial/distinct as for C01.",
+	"C02": "programs: profile seq (nesting, for-loops over lists and matrices incl. ref rows, deferred calls, variables passed in calls); oracle: a pending B of entry k+1 while entry k (recursively: callee, its deps and defers) is incomplete, out-of-order loop items or a printed X different from the passed value is a violation. A case is one (program, schedule) execution; non-trivial = at some quiescent state >= 2 commands were pending at once, i.e. the schedule choice mattered (for the CLI part: every case); distinct by (program text hash, release-order hash).",
+	"C03": "programs: profile fail (1-3 failing probes with codes from {1,2,3,7,42,126,255}, cmd/task ignore_error placements, shared once tasks); oracle: no event downstream of a released non-ignored failure may become pending (same task, callers, dependents, referrers of a shared instance), Run must return an error; with ignore_error the next command must be enabled. Exit statuses are decided by the CLI part (see coverage.cli). A case is one (program, schedule) execution; non-trivial = at some quiescent state >= 2 commands were pending at once, i.e. the schedule choice mattered (for the CLI part: every case); distinct by (program text hash, release-order hash).",
+	"C06": "plus a free-running stress part: 200 deduplicated tasks x 3 simultaneous references per round on 16/8/4 procs, executions counted by name; programs: profile dedup (once and when_changed tasks referenced 2-5 times from deps, cmds, loops, through an include under two namespaces; variable values reaching only env or sub-call vars); oracle: identity-carrying probes: a duplicate B of one identity, a missing execution in a failure-free run, a referrer proceeding before the single execution's last event or after its failure is a violation. A case is one (program, schedule) execution; non-trivial = at some quiescent state >= 2 commands were pending at once, i.e. the schedule choice mattered (for the CLI part: every case); distinct by (program text hash, release-order hash).",
+	"C07": "programs: two thirds profile conc (failure free; depth, fan-out <= 5, shared deps, loops), N in {1,2,3,5,unlimited}, one third profile conc-fail (failing commands and calls, ignore_error, defers, N in {1,2,3}: slots must come back on error paths; WORK is not evaluated once a failure fired); oracle at every quiescent state: pending command writes <= N (SLOT), nothing pending and Run not returned = deadlock (DEAD), pending = min(N, enabled) (WORK), at the end every expected event happened (END.missing). Cycles are decided by the CLI part (coverage.cli). A case is one (program, schedule) execution; non-trivial = at some quiescent state >= 2 commands were pending at once, i.e. the schedule choice mattered (for the CLI part: every case); distinct by (program text hash, release-order hash).",
+	"C13": "programs: profile guard (platforms, requires, enum, preconditions, prompt without terminal, with/without --yes, guards on neighbours, shared tasks); oracle: a pending event of a guarded-out task is a violation, dependents/callers of a failed guard must not run, Run must return an error (platform: success and silence). Exit statuses are decided by the CLI part (coverage.cli). A case is one (program, schedule) execution; non-trivial = at some quiescent state >= 2 commands were pending at once, i.e. the schedule choice mattered (for the CLI part: every case); distinct by (program text hash, release-order hash).",
 	"C17": "group: generated programs of 2-4 parallel tasks x 1-2 commands whose output is self-describing chunks (complete lines, partial lines, no trailing newline, empty output, empty lines, > 64 KiB lines, stdout and stderr, failing and succeeding commands, begin/end set or not, error_only on/off); every Write reaching the Executor's Stdout is gated in a synctest bubble and all release orders of the writes of simultaneously closing commands are enumerated (dfs, bounded per program) plus random orders; the released write sequence must parse into exactly the expected blocks, each contiguous. prefixed: 2-7 tasks x 1-3 commands free-running on 16/8/4/2 procs against a recording writer that yields randomly around every Write; every line exactly once, whole, with its task's prefix, its four writes contiguous. A case is one (program, write order); non-trivial = at least two commands' writes were pending at once (group) / lines of different tasks interleaved (prefixed); distinct by (program hash, write sequence hash).",
-	"C14": "programs: profile defer (0-4 defer entries per task, commands and task calls, failing defers, failing commands at every position, nested tasks with own defers); oracle: defer events only after the task's last executed command, in reverse registration order, exactly once, before the caller's next event; rendered EXIT_CODE equals the failing command's code; at the end every certainly registered defer ran. Case/non-trivial/distinct as for C01.",
+	"C14": "programs: profile defer (0-4 defer entries per task, commands and task calls, failing defers, failing commands at every position, nested tasks with own defers); oracle: defer events only after the task's last executed command, in reverse registration order, exactly once, before the caller's next event; rendered EXIT_CODE equals the failing command's code; at the end every certainly registered defer ran. A case is one (program, schedule) execution; non-trivial = at some quiescent state >= 2 commands were pending at once, i.e. the schedule choice mattered (for the CLI part: every case); distinct by (program text hash, release-order hash).",
 }
 
 // buildSched compiles the E1 test binary against /repo's working tree.
